@@ -29,7 +29,7 @@ class StructCase:
     def cm(self, i):
         it = self.ms[i - 1]
         if self.F == "named":
-            return f"r{i}" if it in ("ren", "renexpr", "astyperen") else f"s{i}"
+            return f"r{i}" if it in ("ren", "ded", "renexpr", "astyperen") else f"s{i}"
         return str(sum(1 for j in range(1, i) if has_leaf(self.ms[j - 1])))
 
     def sgleaf(self, j):
@@ -77,6 +77,9 @@ class StructCase:
             return ""
         if it == "ren":
             return f"#[map({cmn})]"
+        if it == "ded":
+            bogus = f"zz{i}" if self.F == "named" else "9"
+            return f"#[map({bogus})] #[map(D| {cmn})] #[into_existing(DX| {cmn})]"
         if it == "expr":
             return f"#[map({call('~')})]"
         if it == "renexpr":
